@@ -32,3 +32,80 @@ Qed.
 (* a skipped field is not restored *)
 Lemma skipped_field_lost d : d <> [] -> restore_field (snap_field FSkipped (VData d)) <> VData d.
 Proof. intros H E. cbn in E. inversion E. congruence. Qed.
+
+(* ---- repeated cycles, pool capacity, and the necessity of each side condition ---- *)
+
+(* one snapshot-restore cycle *)
+Definition cycle (modes : list fmode) (st : list fval) : list fval := restore (snapshot modes st).
+
+(* any number of snapshot-restore cycles gives back the state *)
+Theorem repeated_cycles : forall n modes st,
+  List.length modes = List.length st ->
+  forallb (fun '(m, v) => field_ok m v) (combine modes st) = true ->
+  Nat.iter n (cycle modes) st = st.
+Proof.
+  induction n as [|n IH]; intros modes st Hl H; [reflexivity|].
+  change (cycle modes (Nat.iter n (cycle modes) st) = st).
+  rewrite IH by assumption. unfold cycle. now apply roundtrip.
+Qed.
+
+(* the number of fields survives a cycle whatever the fields hold *)
+Lemma cycle_length modes st : List.length modes = List.length st -> List.length (cycle modes st) = List.length st.
+Proof.
+  intros Hl. unfold cycle, restore, snapshot. rewrite !map_length, combine_length. lia.
+Qed.
+
+(* pooled scratch capacity: a count-only pool comes back as a pool of exactly as many buffers, all
+   empty — with no condition on what the buffers held when the snapshot was taken *)
+Theorem pool_capacity_restored : forall b,
+  exists b', restore_field (snap_field FCountOnly (VPool b)) = VPool b'
+             /\ List.length b' = List.length b
+             /\ forallb (fun x => match x with [] => true | _ => false end) b' = true.
+Proof.
+  intros b. exists (repeat [] (List.length b)). cbn. split; [reflexivity|]. split; [apply repeat_length|].
+  induction b as [|x b IH]; cbn; [reflexivity|exact IH].
+Qed.
+
+(* a second cycle never changes anything any more: one cycle already reaches a fixed point of the
+   count-only and full fields (a restored object snapshots to the same bytes) *)
+Lemma field_cycle_idempotent m v : m = FFull \/ m = FCountOnly ->
+  restore_field (snap_field m (restore_field (snap_field m v))) = restore_field (snap_field m v).
+Proof.
+  intros [-> | ->]; destruct v; cbn; try reflexivity; now rewrite repeat_length.
+Qed.
+
+(* necessity: a count-only pool that holds a non-empty buffer at the snapshot point is NOT restored
+   (this is why "returned, emptied" of C18 is a premise of the round trip) *)
+Theorem dirty_pool_not_restored : forall b,
+  forallb (fun x => match x with [] => true | _ => false end) b = false ->
+  restore_field (snap_field FCountOnly (VPool b)) <> VPool b.
+Proof.
+  intros b H E. cbn in E. inversion E as [E']. clear E.
+  assert (F : forallb (fun x : list N => match x with [] => true | _ => false end) (repeat [] (List.length b)) = true).
+  { clear. induction b as [|x b IH]; cbn; [reflexivity|exact IH]. }
+  rewrite E' in F. congruence.
+Qed.
+
+(* necessity: the only field mode under which every value survives is "serialised in full" *)
+Theorem only_full_mode_is_lossless : forall m,
+  (forall v, restore_field (snap_field m v) = v) <-> m = FFull.
+Proof.
+  intros m. split.
+  - intros H. destruct m; [reflexivity| | |].
+    + specialize (H (VData [1%N])). cbn in H. discriminate.
+    + specialize (H (VData [1%N])). cbn in H. discriminate.
+    + specialize (H (VData [1%N])). cbn in H. discriminate.
+  - intros ->. intros v. destruct v; reflexivity.
+Qed.
+
+(* exact characterisation of the round trip, field by field: for the modes the source uses, a field
+   survives iff [field_ok] *)
+Theorem field_roundtrip_iff : forall m v, m = FFull \/ m = FCountOnly ->
+  (restore_field (snap_field m v) = v <-> field_ok m v = true).
+Proof.
+  intros m v Hm. split; [|apply field_roundtrip].
+  destruct Hm as [-> | ->]; destruct v as [d|b]; cbn [field_ok]; intros E; try reflexivity.
+  - cbn in E. discriminate.
+  - destruct (forallb (fun x : list N => match x with [] => true | _ => false end) b) eqn:F; [reflexivity|].
+    exfalso. now apply (dirty_pool_not_restored b F).
+Qed.
